@@ -33,11 +33,20 @@ package capella
 //@   assigns anything, ghost(n_set_exec_header)
 //@   ensures n_set_exec_header == old(n_set_exec_header) + 1
 
-// fork upgrade: assumed to hand back a state view of this fork on success (C14: which upgrade runs when is verified in beacon.UpgradeMaybe)
-//@ func UpgradeToCapella(spec, epc, pre) (post, err)
+// upgrade_to_capella: the new fork record is (previous_version = the pre-state's current version, current_version =
+// CAPELLA_FORK_VERSION, epoch = the epoch of the pre-state's slot). The rest of the upgrade (field carry-over, new fields)
+// assembles tree views through the external view library and is not described; a state comes back on success.
+//@ func AsBeaconStateView(v, err0) (r, err)
 //@   trusted
-//@   assigns anything
+//@   ensures err == nil ==> r != nil
+//@ func UpgradeToCapella(spec, epc, pre) (post, err)
+//@   property C14 C02
+//@   panics off
+//@   opt weakcalls
+//@   opt inline=closures
+//@   assigns anything, ghost(n_fork_view), ghost(last_fork_view)
 //@   ensures err == nil ==> post != nil
+//@   ensures fork_record: err == nil && spec != nil && spec.SLOTS_PER_EPOCH != 0 && pre != nil ==> n_fork_view == old(n_fork_view) + 1 && last_fork_view.PreviousVersion == pst_fork_bellatrix(pre).CurrentVersion && last_fork_view.CurrentVersion == spec.CAPELLA_FORK_VERSION && last_fork_view.Epoch == pst_slot_bellatrix(pre) / spec.SLOTS_PER_EPOCH
 
 // the state's latest execution payload header (assumed view models, snapshot semantics; C03)
 //@ sort StateX_capella = ExecutionTrackingBeaconState
@@ -159,6 +168,24 @@ package capella
 //@   trusted
 //@   assigns ghost(n_set_nwvi), ghost(set_nwvi)
 //@   ensures n_set_nwvi == old(n_set_nwvi) + 1 && set_nwvi == nextValidator
+
+// the concrete state's slot and fork record (assumed accessor models; read by the next fork's upgrade function)
+//@ sort StatePtr_capella = *BeaconStateView
+//@ sort ForkRec_capella = common.Fork
+//@ ufun pst_slot_err_capella(StatePtr_capella) bool
+//@ ufun pst_slot_capella(StatePtr_capella) int
+//@ ufun pst_fork_err_capella(StatePtr_capella) bool
+//@ ufun pst_fork_capella(StatePtr_capella) ForkRec_capella
+//@ func (state *BeaconStateView) Slot() (r, err)
+//@   trusted
+//@   opt noalloc
+//@   ensures (err != nil) == pst_slot_err_capella(state)
+//@   ensures err == nil ==> r == pst_slot_capella(state)
+//@ func (state *BeaconStateView) Fork() (r, err)
+//@   trusted
+//@   opt noalloc
+//@   ensures (err != nil) == pst_fork_err_capella(state)
+//@   ensures err == nil ==> r == pst_fork_capella(state)
 
 // BEGIN C18 generated (tools/gen_c18.py in /verif)
 // cancelled: a context cancelled before the call makes it fail; surfaced: a cancellation observed by a poll
